@@ -180,6 +180,8 @@ def est_cases(ctx):
     for i in range(n):
         df, meta = datagen.mixed_frame(ctx.rng, outcome=ctx.rng.choice(['binary', 'binary', 'normal']),
                                        missing=ctx.rng.choice([None, 'mar']))
+        df, dr = datagen.dress(df, ctx.rng, i)
+        meta['dress'] = dr
         b = ['numer', 'sym', 'pair', 'unreached'][i % 4]
         if b == 'numer':
             # a lower bound ABOVE the marginal treatment prevalence: the stabilising numerator itself must be clipped
@@ -297,7 +299,9 @@ def estimator_part(ctx, fails):
         sites, results, errors = run_estimators(df, meta, bound)
         ctx.evaluations += 1
         ctx.count('est-bound:' + bkind)
-        payload = {'part': 'estimator', 'data': df.to_dict('list'), 'meta': meta, 'bound': bound}
+        payload = {'part': 'estimator', 'frame': datagen.pack_frame(df), 'meta': meta, 'bound': bound}
+        ctx.count('row labels:' + meta.get('dress', {}).get('index', 'range'))
+        ctx.count('exposure dtype:' + meta.get('dress', {}).get('adtype', 'int64'))
         for name, err in errors.items():
             fails.append((len(df), '%s.bound.raises' % name, '%s with bound=%r raised %s' % (name, bound, err), payload))
         schemes = sites.pop('__schemes__', [])
